@@ -52,6 +52,9 @@ type args struct {
 	} `json:"e"`
 	K string `json:"k"`
 	H string `json:"h"`
+	// second id (else-arm) and condition of a use inside a conditional attribute
+	T    string `json:"t"`
+	Cond bool   `json:"cond"`
 }
 
 type label struct {
@@ -322,6 +325,10 @@ func (w *world) component(l label, nest int) templ.Component {
 		}
 	case "ElementWithClassAndOn":
 		c = classAndOn(w.classes[l.Args.K], w.scripts[l.Args.S1])
+	case "ElementWithCondOn":
+		c = condOn(l.Args.Cond, w.scripts[l.Args.S1], w.scripts[l.Args.T])
+	case "ElementWithCondClass":
+		c = condClass(l.Args.Cond, w.classes[l.Args.K], w.classes[l.Args.T])
 	case "OnceWithBlock":
 		c = onceBlock(w.handles[l.Args.H], l.Args.H)
 	case "OnceWithComponent":
